@@ -152,6 +152,7 @@ LOCS = {
     "scheme-relative": ("//other.example/next", False),
     "userinfo-other": ("http://u:p@other.example/next", False),
     "sub-domain": ("http://origin.example.evil.example/next", False),
+    "unsupported-scheme": ("ftp://origin.example/next", False),
 }
 CREDS = ["authorization", "cookie", "two-cookies", "auth_username", "url-userinfo", "none"]
 CHAINS = ["one", "two-same", "cross-then-back", "same-then-cross"]
@@ -174,7 +175,7 @@ def run_redirect(case):
     status, method, lockind, cred, maxred, chain = case
     loc, same = LOCS[lockind]
     with World() as w:
-        client = make_client(w, mode="auto")
+        client = make_client(w, mode="auto", **({"max_clients": 1} if lockind == "unsupported-scheme" else {}))
         if chain == "then-refused":
             tcp0 = client.tcp_client
             orig_connect = tcp0.connect
@@ -245,15 +246,31 @@ def run_redirect(case):
             else:
                 resp = b"HTTP/1.1 200 OK\r\nContent-Length: 0\r\n\r\n" if req[0] == "HEAD" else OK_RESPONSE
             c["sock"].feed(resp)
-            c["sock"].feed_eof()
+            if k >= len(plan):
+                c["sock"].feed_eof()
             w.pump()
+            # (a redirecting server keeps its connection open: the client itself has to close the connection that
+            #  delivered the 3xx when it moves on, or connections pile up beyond max_clients along the chain)
+            hops[-1]["closed_after_response"] = c["sock"].closed
             k += 1
         if not fut.done():
             w.run_all_timers(10)
         res = response_summary(fut)
+        after = None
+        if lockind == "unsupported-scheme":
+            # the slot of the failed fetch is free again: the next fetch gets its connection
+            n0 = len(tcp.conns)
+            f2 = client.fetch(HTTPRequest("http://origin.example/after"), raise_error=False)
+            w.pump()
+            after = len(tcp.conns) > n0
+            if after:
+                tcp.conns[-1]["sock"].feed(OK_RESPONSE)
+                tcp.conns[-1]["sock"].feed_eof()
+                w.pump()
+            f2.done() and f2.exception()
         errs = [str(c.get("message"))[:80] for c in w.loop_errors()]
         client.close()
-    return {"hops": hops, "res": res, "plan": plan, "errs": errs}
+    return {"hops": hops, "res": res, "plan": plan, "errs": errs, "after": after}
 
 
 def origin_of(hop):
@@ -274,6 +291,19 @@ def judge_redirect(case, o):
         if o["errs"]:
             bad.append(("loop-exception", repr(o["errs"][:2])))
         return bad
+    if lockind == "unsupported-scheme" and chain in ("one", "same-then-cross") and want_followed >= len(plan):
+        # the redirect leads to a URL this client cannot fetch: the fetch fails (it does not hang) and gives its slot back
+        if res[0] == "pending":
+            bad.append(("pending:redirect-to-unsupported-scheme", "redirected to %s and the fetch never completed" % LOCS[lockind][0]))
+        elif res[0] == "ok" and res[1] != 599:
+            bad.append(("final-code:redirect-to-unsupported-scheme", "the fetch returned %r" % (res[:3],)))
+        if o.get("after") is False:
+            bad.append(("slot-not-released:redirect-to-unsupported-scheme", "max_clients=1: the next fetch was not started"))
+        if o["errs"]:
+            bad.append(("loop-exception", repr(o["errs"][:2])))
+        return bad
+    if lockind == "unsupported-scheme":
+        return bad          # (chains that go on after the unsupported hop are not meaningful)
     if len(hops) - 1 != want_followed:
         bad.append(("redirect-count", "followed %d redirects, expected %d (max_redirects=%r, chain of %d)"
                     % (len(hops) - 1, want_followed, maxred, len(plan))))
@@ -288,6 +318,12 @@ def judge_redirect(case, o):
             bad.append(("final-code", "stopped following but final code is %r, not %d" % (res[1], status)))
     elif res[1] != 200:
         bad.append(("final-code", "final code %r" % (res[1],)))
+    for k, hop in enumerate(hops):
+        if hop.get("closed_after_response") is False:
+            bad.append(("connection-left-open-after-%s" % ("redirect" if k < len(hops) - 1 else "final-response"),
+                        "hop %d: the response was consumed%s but the client has not closed that connection"
+                        % (k, " and the follow-up request sent" if k < len(hops) - 1 else "")))
+            break
     orig = origin_of(hops[0])
     if method == "GET+body":
         m, has_body = "GET", True
